@@ -182,6 +182,17 @@ def stk_udata(frames):
 
 
 # header counts: the count is a full 64-bit argument word ("header count above/below the data supplied")
+# Scale rungs: the number of records one START..END window holds (START and END included) / of threads / of entries.
+# A limit somebody hard-codes is most likely a power of two or of ten; 2^16 is the one every "reasonable cap" starts
+# from, so the quick tier steps over it record by record (a cap may be off by one in either direction and may count the
+# START, the END, both or neither), and the thorough tier continues to 10^5, 2^17 and 2^18.
+def _around(t):
+    return tuple(t + d for d in (-2, -1, 0, 1, 2))
+
+
+SCALE_RUNGS_QUICK = (4095, 4096, 5000) + _around(1 << 16) + (70000,)
+SCALE_RUNGS_THOROUGH = SCALE_RUNGS_QUICK + (16384, 20000) + _around(100000) + _around(1 << 17) + ((1 << 18) + 1,)
+
 HEADER_COUNT_BOUNDARIES = ((1 << 31) - 1, 1 << 31, (1 << 32) - 1, 1 << 32, (1 << 32) + 1, (1 << 32) + 2, (1 << 63) + 1,
                            (1 << 64) - 1)
 
@@ -213,6 +224,22 @@ def unrelated(rng, k=1):
                                'TURNSTILE_thread_removed_from_turnstile_waitq'))
             out.append(A(name, NONE, domain.gen_single(rng, name)))
     return out
+
+
+def window_filler(rng, n):
+    """Exactly n same-thread records of the ordinary pairing domain (nothing of the kernel trace class, which pairs among
+    itself, no ENDs), so that a window around them holds exactly n more records."""
+    base = []
+    while len(base) < 97:
+        for a in unrelated(rng, 97):
+            code = a[0]
+            # (an END without an open START is not part of anybody's window either)
+            # ... and nothing a composite decoder looks for inside its window (real-fault records of any kind)
+            cid = ev.eid(code) if isinstance(code, str) else code
+            if (cid >> 24) != 7 and a[1] != END and cid not in ev.REAL_FAULT_IDS:
+                base.append(a)
+    base = base[:97]
+    return (base * (n // 97 + 1))[:n]
 
 
 def chunk_safe(path: bytes):
@@ -363,11 +390,16 @@ def hostile_variants(rng, seq, limit=None):
 # interleavings
 # ---------------------------------------------------------------------------------------------
 
-def count_interleavings(lengths):
-    from math import factorial
-    n = factorial(sum(lengths))
+def count_interleavings(lengths, cap=10 ** 30):
+    """Multinomial coefficient, computed incrementally; values beyond `cap` are reported as `cap` (thousands of threads
+    would otherwise cost seconds of big-number arithmetic for a number nobody reads)."""
+    from math import comb
+    n, placed = 1, 0
     for l in lengths:
-        n //= factorial(l)
+        placed += l
+        n *= comb(placed, l)
+        if n > cap:
+            return cap
     return n
 
 
